@@ -30,7 +30,7 @@ type Plan struct {
 	MaxDup   int     `json:"maxDup"`
 	MaxLoss  int     `json:"maxLoss"`
 	ProcNet  int     `json:"procNet"`
-	Sample   int     `json:"sample"` // behaviours replayed (0 = all)
+	Sample   int     `json:"sample"`   // behaviours replayed (0 = all)
 	SpecOnly bool    `json:"specOnly"` // the model is checked, nothing is replayed (named alternatives of the spec)
 	Workers  int     `json:"workers"`
 	TimeoutS int     `json:"timeoutS"`
